@@ -1022,7 +1022,56 @@ def million_digits(ctx):
                           "C15 fails: %s is not printed in full (%s)" % (o.get("text"), {k: v for k, v in o.items() if k != "text"}), dict(text=o.get("text"), observed=o))
 
 
+def impl_long_array(text):
+    """a long array is displayed and offered for re-entry element by element, like a short one"""
+    import io
+    import ka.interpret as I
+    from ka.eval import EvalEnvironment
+    from ka.types import Array
+
+    class Box:
+        value = None
+    box, o, e = Box(), io.StringIO(), io.StringIO()
+    try:
+        st = I.execute(text, EvalEnvironment(), out=o, errout=e, result_box=box)
+        if st != 0 or not isinstance(box.value, Array):
+            return dict(text=text, status=st, err=e.getvalue()[:200], skipped=True)
+        shown = o.getvalue()
+        each = [I.stringify_result(x) for x in box.value.contents]
+        reentry = I.stringify_result(box.value, brackets_for_frac=True)
+        each_re = [I.stringify_result(x, brackets_for_frac=True) for x in box.value.contents]
+        short = I.stringify_result(Array(list(box.value.contents[:7])), brackets_for_frac=True)
+        first_bad = next((i for i, (a, b) in enumerate(zip(shown.strip()[1:-1].split(", "), each)) if a != b), None)
+        return dict(text=text, status=0, n=len(each), display_ok=shown == "{" + ", ".join(each) + "}\n", reentry_ok=reentry == "{" + ", ".join(each_re) + "}",
+                    short_ok=short == "{" + ", ".join(each_re[:7]) + "}", first_bad=first_bad,
+                    shown=(shown.strip()[1:-1].split(", ")[first_bad] if first_bad is not None else shown[:60]), alone=(each[first_bad] if first_bad is not None else None))
+    except C.CaseTimeout:
+        raise
+    except BaseException as x:
+        return dict(text=text, escaped=type(x).__name__, msg=str(x)[:160])
+
+
+def long_array_lane(ctx):
+    rep = ctx["report"]
+    texts = ["{sqrt(x) : x in 1..%d}" % n for n in (999, 1001, 1500, 4000)] + ["{x * 0.1 : x in 1..1200}", "{x / 3 : x in 1..1100}", "{x m : x in 1..1100}",
+             "{(x / 7) s : x in 1..1050}", "{sin(x) kg : x in 1..1030}", "{x + 0.5 : x in 1..2000}", "1..5000", "{1/x : x in 1..1300}", "{10^20 + x : x in 1..1100}",
+             "{[x, x + 0.25] : x in 1..1010}", "{{x, x/2} : x in 1..1005}", "{ln(x) : x in 1..1024}", "{x! : x in 1..1001}"]
+    for o in C.run_impl(impl_long_array, texts, ctx["rundir"], limit=120.0, chunksize=1):
+        t = o.get("text")
+        if o.get("hung") or o.get("skipped") or t is None:
+            continue
+        if o.get("escaped"):
+            rep.violation(dict(kind="long-array", why="escaped"), "C15 fails: displaying `%s` or building its re-entry text raises %s (%s)" % (t, o["escaped"], o.get("msg")),
+                          dict(text=t, outcome="escaped " + o["escaped"], message=o.get("msg")))
+        elif not (o["display_ok"] and o["reentry_ok"] and o["short_ok"]):
+            rep.violation(dict(kind="long-array", why="elementwise"),
+                          "C15 fails: `%s` (%d elements) is not displayed / offered for re-entry element by element: element %s is shown as %r, alone it is %r"
+                          % (t, o["n"], o.get("first_bad"), o.get("shown"), o.get("alone")),
+                          dict(text=t, elements=o["n"], first_bad=o.get("first_bad"), shown=o.get("shown"), alone=o.get("alone"), display_ok=o["display_ok"], reentry_ok=o["reentry_ok"]))
+
+
 def run(ctx):
+    long_array_lane(ctx)
     reentry_under_configs(ctx)
     million_digits(ctx)
     rep, tier, seed = ctx["report"], ctx["tier"], ctx["seed"]
